@@ -43,7 +43,7 @@ ASSUMPTIONS = [
     'from the JSON-Schema-dialect mismatch',
 ]
 SHARDS = {'quick': 4, 'thorough': 16}
-TIMEOUT = {'quick': 900, 'thorough': 3400}
+TIMEOUT = {'quick': 900, 'thorough': 3600}
 ANCHORS = [
     ('pjrpc/server/specs/openapi.py', 'OpenAPI.schema'), ('pjrpc/server/specs/openapi.py', 'OpenAPI._extract_errors'),
     ('pjrpc/server/specs/openapi.py', 'OpenAPI._extract_request_schema'), ('pjrpc/server/specs/openapi.py', 'OpenAPI._extract_response_schema'),
